@@ -16,7 +16,9 @@ CORRESPONDENCE recording wrappers around emd.sift.get_next_imf / interp_envelope
                different values for every option, then the configuration under test, then two more decoys (same and another
                variant), and only then is the configuration under test run; np.pad dictionaries are put into a SiftConfig
                both whole and entry by entry (three-level key paths).  Configuring a decoy must change nothing.
-ORACLE         on the implementation alone: every recorded call of the stage an option configures received the supplied
+ORACLE         on the implementation alone (the last one is about the extrema stage itself: custom np.pad dictionaries must
+               govern EVERY padding round - burst / late-onset / early-fading signals that need >= 2 rounds by an independent
+               count; get_padded_extrema, interp_envelope and sift by the three routes against an independent reference): every recorded call of the stage an option configures received the supplied
                value, in the calling process and in every worker; and the output equals a decomposition assembled by
                hand from get_next_imf with the same options (classic, masked, both second-layer variants).
 """
@@ -600,7 +602,9 @@ def run_cases(cases, workdir, nworkers=12):
         jf = os.path.join(workdir, 'job_%d.json' % i)
         with open(jf, 'w') as f:
             json.dump(dict(work=workdir, cases=ch), f)
-        procs.append((jf, subprocess.Popen([common.PY, '-B', os.path.abspath(__file__), '--drive', jf], env=common.impl_env(),
+        env = common.impl_env()     # PYTHONPATH = the tree under test
+        env['EMD_REPO'] = '/repo'   # drivers only run the implementation: they must not make common.py's private Coq copy again
+        procs.append((jf, subprocess.Popen([common.PY, '-B', os.path.abspath(__file__), '--drive', jf], env=env,
                                            stdout=subprocess.PIPE, stderr=subprocess.PIPE, text=True)))
     out = {}
     for jf, p in procs:
@@ -654,6 +658,200 @@ def site_of(case, code, kw, in_worker):
     if v == 'complete_ensemble_sift':
         return 'emd/sift.py:complete_ensemble_sift'
     return 'emd/sift.py:' + v
+
+
+# --------------------------------------------------------------------------- the extrema stage honours custom np.pad options
+# over ALL padding rounds.  get_padded_extrema pads again and again until the padded locations cover both edges; on a signal
+# whose oscillation starts late / fades early / sits as a burst on a ramp one round is not enough.  Reference: own extrema
+# detection, np.pad with the SUPPLIED dictionaries in every round, own count of the rounds.
+MAG_OPTS = [None, {'mode': 'median', 'stat_length': 1}, {'mode': 'mean', 'stat_length': 2}, {'mode': 'mean', 'stat_length': 3},
+            {'mode': 'reflect'}, {'mode': 'symmetric'}, {'mode': 'wrap'}, {'mode': 'reflect', 'reflect_type': 'odd'},
+            {'mode': 'maximum', 'stat_length': 2}]
+LOC_OPTS = [None, {'mode': 'reflect', 'reflect_type': 'odd'}]      # never reflect_type='even': the library's loop would not end
+FIXED_BURSTS = [dict(n=128, start=52, stop=84, period=8.0, slope=0.02, amp=1.0, phase=0.3),     # burst on a ramp
+                dict(n=128, start=70, stop=128, period=7.0, slope=0.03, amp=0.8, phase=1.1),    # late onset
+                dict(n=128, start=0, stop=50, period=9.0, slope=-0.025, amp=1.2, phase=0.0)]    # early fading
+
+
+def burst_signal(prm):
+    """monotone ramp + windowed oscillation: no extrema outside [start, stop)"""
+    n = prm['n']
+    t = np.arange(n, dtype=float)
+    w = np.zeros(n)
+    a, b = prm['start'], prm['stop']
+    w[a:b] = np.hanning(b - a + 2)[1:-1] ** 0.25
+    return prm['slope'] * t + prm['amp'] * w * np.sin(2 * np.pi * t / prm['period'] + prm['phase'])
+
+
+def burst_params(ctx):
+    out = list(FIXED_BURSTS)
+    for _ in range(2 if ctx.quick() else 8):
+        n = ctx.rng.choice([96, 128, 160])
+        a = ctx.rng.randrange(0, n // 2)
+        b = ctx.rng.randrange(a + 30, min(n, a + 70) + 1)
+        out.append(dict(n=n, start=a, stop=b, period=ctx.rng.choice([6.0, 7.5, 9.0, 11.0]), slope=ctx.rng.choice([0.02, -0.03, 0.04]),
+                        amp=ctx.rng.choice([0.7, 1.0, 1.5]), phase=round(ctx.rng.uniform(0, 6.28), 3)))
+    return out
+
+
+def ref_padded_extrema(X, pad_width=2, mode='peaks', parabolic_extrema=False, loc_pad_opts=None, mag_pad_opts=None, count=None):
+    """Independent get_padded_extrema (no parabolic refinement).  count: a list that receives the number of padding rounds."""
+    if parabolic_extrema or mode not in ('peaks', 'troughs'):
+        raise NotImplementedError
+    x = np.asarray(X, dtype=float)
+    x = x[:, 0] if x.ndim == 2 else x
+    y = x if mode == 'peaks' else -x
+    locs = np.array([i for i in range(1, len(y) - 1) if y[i] > y[i - 1] and y[i] > y[i + 1]], dtype=int)
+    if locs.size <= 1:
+        return None, None
+    mags = x[locs]
+    p = min(pad_width, locs.size)
+    if not p:
+        return locs, mags
+    lo = dict(loc_pad_opts) if loc_pad_opts else {'mode': 'reflect', 'reflect_type': 'odd'}
+    mo = dict(mag_pad_opts) if mag_pad_opts else {'mode': 'median', 'stat_length': 1}
+    lm, mm = lo.pop('mode'), mo.pop('mode')
+    rounds = 0
+    while True:
+        locs = np.pad(locs, p, lm, **lo)
+        mags = np.pad(mags, p, mm, **mo)
+        rounds += 1
+        if locs.max() >= len(x) and locs.min() < 0:
+            break
+        if rounds > 300:
+            raise RuntimeError('reference padding does not reach the edges')
+    if count is not None:
+        count.append(rounds)
+    return locs, mags
+
+
+def ref_envelope(x, mode, interp_method, locs, pks):
+    from scipy import interpolate as interp
+    t = np.arange(np.ceil(locs[0]), locs[-1])
+    if interp_method == 'splrep':
+        env = interp.splev(t, interp.splrep(locs, pks))
+    else:
+        env = interp.PchipInterpolator(locs, pks)(t)
+    return np.array(env[np.logical_and(t >= 0, t < len(x))])
+
+
+def same(a, b):
+    """-> 'identical' | 'close' | 'differ'"""
+    if a is None or b is None:
+        return 'identical' if a is None and b is None else 'differ'
+    a, b = np.asarray(a, dtype=float), np.asarray(b, dtype=float)
+    if a.shape != b.shape:
+        return 'differ'
+    if np.array_equal(a, b):
+        return 'identical'
+    return 'close' if np.allclose(a, b, rtol=1e-9, atol=1e-12) else 'differ'
+
+
+def pad_case(S, inp):
+    """One comparison of the pad-rounds oracle.  inp: check, level, signal, mode, pad_width, loc_pad_opts, mag_pad_opts
+    (+ interp_method / route).  -> (verdict, rounds, detail)"""
+    x = burst_signal(inp['signal'])
+    lo, mo, p, mode = inp['loc_pad_opts'], inp['mag_pad_opts'], inp['pad_width'], inp['mode']
+    gpe = _ORIG.get('P') or S.get_padded_extrema
+    cnt = []
+    rl, rm = ref_padded_extrema(x, p, mode, False, lo, mo, cnt)
+    rounds = cnt[0] if cnt else 0
+    with warnings.catch_warnings():
+        warnings.simplefilter('ignore')
+        with common.time_limit(20):
+            if inp['level'] == 'stage':
+                il, im = gpe(x, pad_width=p, mode=mode, loc_pad_opts=lo, mag_pad_opts=mo)
+                v1, v2 = same(il, rl), same(im, rm)
+                v = 'differ' if 'differ' in (v1, v2) else ('close' if 'close' in (v1, v2) else 'identical')
+                return v, rounds, dict(magnitudes_impl=None if im is None else [float(q) for q in im],
+                                       magnitudes_reference=None if rm is None else [float(q) for q in rm])
+            xo = dict(pad_width=p)
+            if lo is not None:
+                xo['loc_pad_opts'] = lo
+            if mo is not None:
+                xo['mag_pad_opts'] = mo
+            if inp['level'] == 'envelope':
+                env = (_ORIG.get('E') or S.interp_envelope)(x, mode={'peaks': 'upper', 'troughs': 'lower'}[mode],
+                                                             interp_method=inp['interp_method'], extrema_opts=xo)
+                ref = None if rl is None else ref_envelope(x, mode, inp['interp_method'], rl, rm)
+                return same(env, ref), rounds, dict(max_abs_diff=None if env is None or ref is None or env.shape != ref.shape
+                                                    else float(np.abs(env - ref).max()))
+            # level 'sift': the whole classic sift by a delivery route against the same sift run on the reference stage
+            u = dict(imf_opts=None, envelope_opts=None, extrema_opts=xo)
+            base = dict(max_imfs=2)
+            if inp['route'] == 'keyword':
+                out = S.sift(x, **base, **given(u))
+            elif inp['route'] == 'config':
+                out = S.sift(x, **apply_config(S, 'sift', base, u, 'path'))
+            else:
+                out = apply_config(S, 'sift', base, u, 'assign').get_func()(x)
+            live = S.get_padded_extrema
+            S.get_padded_extrema = ref_padded_extrema
+            try:
+                ref = S.sift(x, **base, **given(u))
+            finally:
+                S.get_padded_extrema = live
+            return same(out, ref), rounds, dict(max_abs_diff=float(np.abs(out - ref).max()) if out.shape == ref.shape else 'shape')
+
+
+def pad_rounds_oracle(ctx):
+    import emd.sift as S
+    hist, nontrivial, failed_stage = {}, 0, set()
+    todo = []
+    for prm in burst_params(ctx):
+        for mode in ('peaks', 'troughs'):
+            for p in (1, 2, 3):
+                for lo in LOC_OPTS:
+                    for mo in MAG_OPTS:
+                        todo.append(dict(check='pad-rounds', level='stage', signal=prm, mode=mode, pad_width=p, loc_pad_opts=lo, mag_pad_opts=mo))
+        for mo in MAG_OPTS[2:]:
+            for im in ('splrep', 'mono_pchip'):
+                todo.append(dict(check='pad-rounds', level='envelope', signal=prm, mode='peaks', pad_width=2, loc_pad_opts=None,
+                                 mag_pad_opts=mo, interp_method=im))
+        for mo in MAG_OPTS[2:6]:
+            for r in ROUTES:
+                todo.append(dict(check='pad-rounds', level='sift', signal=prm, mode='peaks', pad_width=2, loc_pad_opts=None,
+                                 mag_pad_opts=mo, route=r))
+    for inp in todo:
+        okey = json.dumps([inp['signal'], inp['pad_width'], inp['loc_pad_opts'], inp['mag_pad_opts']], sort_keys=True)
+        try:
+            v, rounds, detail = pad_case(S, inp)
+        except common.Timeout:
+            ctx.discarded += 1
+            continue
+        except Exception as e:  # noqa
+            if inp['level'] == 'sift':      # an exotic padding may make the sift itself fail: nothing to compare
+                ctx.discarded += 1
+                continue
+            ctx.problem('correspondence-break', 'emd/sift.py:get_padded_extrema', 'pad-rounds oracle: the stage raised %s: %s'
+                        % (type(e).__name__, str(e)[:200]), input=inp, theorem='harness/props/c06.py:ref_padded_extrema')
+            continue
+        custom = inp['mag_pad_opts'] is not None or inp['loc_pad_opts'] is not None
+        ctx.count(('pad-rounds', json.dumps(inp, sort_keys=True)), rounds >= 2 and custom, 'pad-rounds/%s/rounds=%s' % (inp['level'], min(rounds, 5)))
+        hist[rounds] = hist.get(rounds, 0) + 1
+        nontrivial += rounds >= 2 and custom
+        if v == 'identical':
+            ctx.exact_cmp += 1
+        elif v == 'close':
+            ctx.tol_cmp += 1
+        else:
+            if inp['level'] == 'stage':
+                failed_stage.add(okey)
+                site = 'emd/sift.py:get_padded_extrema'
+            elif okey in failed_stage or inp['level'] == 'envelope':
+                site = 'emd/sift.py:get_padded_extrema' if okey in failed_stage else 'emd/sift.py:interp_envelope'
+            else:
+                site = 'emd/sift.py:sift'
+            what = {'stage': 'get_padded_extrema does not pad with the supplied np.pad options in every padding round (%d rounds needed)',
+                    'envelope': 'interp_envelope differs from the envelope through extrema padded with the supplied np.pad options (%d rounds)',
+                    'sift': 'sift differs from the same sift over extrema padded with the supplied np.pad options in every round (%d rounds in the first call)'}
+            ctx.problem('impl-violation', site, what[inp['level']] % rounds, input=inp, observed=detail, expected='identical to the reference',
+                        tags=dict(check='pad-rounds', level=inp['level']))
+    ctx.extra['pad_rounds_histogram'] = {str(k): v for k, v in sorted(hist.items())}
+    if not nontrivial:
+        ctx.problem('correspondence-break', 'harness:pad-rounds', 'no case of the pad-rounds oracle needed two padding rounds',
+                    theorem='harness/props/c06.py:burst_params')
+    ctx.notes.append('pad-rounds oracle: %d comparisons, %d with custom np.pad options and >= 2 padding rounds' % (len(todo), nontrivial))
 
 
 # --------------------------------------------------------------------------- model side
@@ -793,6 +991,7 @@ def run(ctx):
                     theorem='Options.calls vs emd.sift.%s' % c['variant'])
     if breaks:
         ctx.notes.append('%d grid cases where the recorded calls differ from the model' % len(breaks))
+    pad_rounds_oracle(ctx)
     ctx.exhaustive = True
     ctx.extra['worker_processes_observed'] = workers_seen
     ctx.extra['hand_assembled_pipeline'] = pipe
@@ -804,6 +1003,11 @@ def replay(rec):
     """Re-run the recorded sequence (decoy configurations, configuration style, variant, options, route, nprocesses, signal):
     True iff the same site still loses the option."""
     import tempfile
+    if rec['input'].get('check') == 'pad-rounds':
+        import emd.sift as S
+        v, rounds, detail = pad_case(S, rec['input'])
+        print('  pad-rounds %s: %s after %d padding rounds %s' % (rec['input']['level'], v, rounds, str(detail)[:300]))
+        return v == 'differ'
     c = dict(rec['input'])
     c['id'] = 'replay'
     os.environ.setdefault(common.GUARD, '1')
